@@ -191,10 +191,10 @@ func c01ProPair(ci, cr c01Cfg) string {
 // ---------- wire edits ----------
 
 func c01WireBases() []c01Base {
-	std := [2]c01Cfg{{Entry: "T", Expect: "match"}, {Entry: "T", Expect: "empty"}}              // the TCP path: the listener does not know who dials
-	both := [2]c01Cfg{{Entry: "T", Expect: "match"}, {Entry: "T", Expect: "match"}}            // both sides name the other
+	std := [2]c01Cfg{{Entry: "T", Expect: "match"}, {Entry: "T", Expect: "empty"}}                                                      // the TCP path: the listener does not know who dials
+	both := [2]c01Cfg{{Entry: "T", Expect: "match"}, {Entry: "T", Expect: "match"}}                                                     // both sides name the other
 	wt := [2]c01Cfg{{Entry: "ST", Expect: "match", Prologue: "A", EDH: true}, {Entry: "ST", Expect: "empty", Prologue: "A", EDH: true}} // WebTransport-like
-	off := [2]c01Cfg{{Entry: "ST", Expect: "disabled"}, {Entry: "ST", Expect: "disabled"}}      // peer-ID check disabled on both sides
+	off := [2]c01Cfg{{Entry: "ST", Expect: "disabled"}, {Entry: "ST", Expect: "disabled"}}                                              // peer-ID check disabled on both sides
 	ed := c01wire.KeyTypes[0]
 	var out []c01Base
 	add := func(ti, tr int, c [2]c01Cfg) { out = append(out, c01Base{ti: ti, tr: tr, ci: c[0], cr: c[1]}) }
@@ -218,6 +218,15 @@ func c01WireBases() []c01Base {
 	add(ed, ed, wt)
 	add(ed, ed, off)
 	return out
+}
+
+// c01Masks: XOR masks applied at every byte position. Thorough tier: every single-bit flip and the complement
+// for the TCP-path baselines whose two identities have the same key type; 0x01 and 0x80 everywhere else.
+func c01Masks(b c01Base) []byte {
+	if vrep.Thorough() && b.ti == b.tr && b.ci == (c01Cfg{Entry: "T", Expect: "match"}) && b.cr == (c01Cfg{Entry: "T", Expect: "empty"}) {
+		return []byte{0x01, 0x02, 0x04, 0x08, 0x10, 0x20, 0x40, 0x80, 0xff}
+	}
+	return []byte{0x01, 0x80}
 }
 
 // c01DryRun runs the unedited baseline until the observed message lengths are the canonical ones, and
@@ -260,7 +269,7 @@ func TestVerifC01NoiseWire(t *testing.T) {
 	defer a.flush()
 	bases := c01WireBases()
 	a.r.Bounds["baselines"] = fmt.Sprintf("%d (quick: ed25519 x {all 4} and {all 4} x ed25519 on the TCP-path configuration, plus ed25519/ed25519 with both sides naming the peer, WebTransport-like SessionTransport (prologue + early data) and peer-ID check disabled; thorough: all 16 key pairs x those 4 configurations)", len(bases))
-	a.r.Bounds["edits per handshake message"] = "every byte position of the framed message (2-byte length prefix included) XOR 0x01 and XOR 0x80; " + fmt.Sprint(c01wire.StructuralKinds) + "; swap with the same-index message of a second concurrent session between the same identities"
+	a.r.Bounds["edits per handshake message"] = "every byte position of the framed message (2-byte length prefix included) XOR 0x01 and XOR 0x80 (thorough: all 8 single-bit masks and 0xff for the 4 same-key-type TCP-path baselines); " + fmt.Sprint(c01wire.StructuralKinds) + "; swap with the same-index message of a second concurrent session between the same identities"
 	a.r.Bounds["edits per run"] = 1
 	shard, nshards := vrep.Shard()
 	// The canonical message lengths are computed (not measured), so the enumeration below is the same in
@@ -272,7 +281,7 @@ func TestVerifC01NoiseWire(t *testing.T) {
 		dry := 0 // 0: not yet run by this shard, 1: baseline completes, 2: it does not (reported) - skip
 		for msg := 0; msg < 3; msg++ {
 			var edits []c01wire.Edit
-			for _, mask := range []byte{0x01, 0x80} {
+			for _, mask := range c01Masks(b) {
 				for p := 0; p < canon[msg]; p++ {
 					edits = append(edits, c01wire.Edit{Kind: "xor", Pos: p, Mask: mask})
 				}
